@@ -205,6 +205,31 @@ def check_config(cfg, w, rep):
                     rep.violation("c-returned:%s" % fn_key(lf), "`%s` returns %s instead of the computed digest" % (short(lf.path), sorted(map(repr, pay))[:2]),
                                   loc=blk_loc(lf.body, rd.blk), config=cfg, rule="c-returned-address")
 
+    # one-shot writers hand back exactly what their commit returned (no history-dependent shortcut)
+    n_os = 0
+    for lf in prog.fns.values():
+        nm = lf.path.replace("::{closure#0}", "")
+        if not re.search(r"^put::write(_hash)?(_sync)?_with_algo::inner$", nm):
+            continue
+        n_os += 1
+        bad = []
+        for rd in ret_defs(prog, lf.body):
+            if rd.cls in ("failure", "neutral"):
+                continue
+            g = None
+            if rd.cls == "delegated" and rd.origin is not None and rd.origin.callee is not None:
+                g = prog.callee_fn(rd.origin.term)
+            if g is None or g.path not in w.roles.commits:
+                bad.append(rd)
+        if bad:
+            rep.violation("c-one-shot-returns:%s" % fn_key(lf),
+                          "`%s` can return an address that is not the result of its own commit (%s): the address would depend on what the cache already "
+                          "contains, not only on (algorithm, bytes)" % (short(lf.path), bad[0].detail[:80]), loc=blk_loc(lf.body, bad[0].blk), config=cfg,
+                          rule="c-returned-address")
+        else:
+            rep.ob(cfg, "c-returned-address", fn_key(lf), "`%s` returns exactly its commit's result" % short(lf.path))
+    rep.floor("one_shot_writers", n_os, 4 if is_async else 2, cfg)
+
     # ---- (d) each entry is verified under its own stored/requested integrity; (e) re-publication is the same atomic rename ----
     sub = Report("C01")
     c01.check_config(cfg, w, sub)
